@@ -11,6 +11,7 @@ Integer data only: NaN ordering and complex values are not modelled."""
 import itertools
 import json
 import random
+import time
 
 import vlib
 from vlib import vZ, vbool, vlist, vopt, vpair
@@ -253,7 +254,7 @@ def gen_api(rng, tier):
     shapes3 = list(itertools.product(ext, ext, ext))
     if tier == "quick":
         shapes3 = rng.sample([s for s in shapes3 if 0 not in s], 20) + rng.sample([s for s in shapes3 if 0 in s], 6)
-        per = {1: 12, 2: 6, 3: 3}
+        per = {1: 10, 2: 5, 3: 2}
         per_unpruned = {1: 4, 2: 2, 3: 1}
         shapes4 = []
     else:
@@ -440,7 +441,7 @@ def tags_of(spec, op):
 def campaign(build, tier, seed, report, budget=1):
     rng = random.Random(seed)
     viol = []
-    nk = (400 if tier == "quick" else 3000) * budget
+    nk = (300 if tier == "quick" else 3000) * budget
     tags = {}
 
     def tag(*ts):
@@ -453,7 +454,10 @@ def campaign(build, tier, seed, report, budget=1):
     api = gen_api(rng, tier)
     # one worker pool for everything (each worker pays the import and the JIT compilation once)
     allc = [("api", c) for c in api] + [("sortk", c) for c in sk] + [("minmaxk", c) for c in mk]
+    t_impl = time.time()
     rall = vlib.run_impl("props.c10", "impl_any", allc, workers=6, per_case_timeout=60.0)
+    t_impl = time.time() - t_impl
+    t_judge = time.time()
     rapi, rsk, rmk = rall[:len(api)], rall[len(api):len(api) + len(sk)], rall[len(api) + len(sk):]
 
     lits = []
@@ -524,16 +528,18 @@ def campaign(build, tier, seed, report, budget=1):
 
     # report the most readable witness of each class first: no zero extents, about six elements
     def nice(v):
+        first = 0 if v.get("kind") == "value" else 1        # concrete failing inputs first
         sh = v["case"].get("array", {}).get("shape")
         if sh is None:
-            return (0, 0, 0)
+            return (first, 0, 0, 0, 0)
         size = 1
         for d in sh:
             size *= d
-        return (1, 0 in sh, len(v.get("history") or []), abs(size - 6))
+        return (first, 1, 0 in sh, len(v.get("history") or []), abs(size - 6))
     viol.sort(key=nice)
 
     cov = report["coverage"]
+    cov["phase_seconds"] = {"implementation": round(t_impl, 1), "coq_judges": round(time.time() - t_judge, 1)}
     cov["evaluations"] = len(sk) + len(mk) + len(flat)
     cov["kernel_cases"] = {"_sort_coo": len(sk), "_compute_minmax_args": len(mk)}
     cov["api_cases"] = len(flat)
